@@ -12,7 +12,7 @@
 //
 // Protocol (fields separated by one space; byte strings hex, "-" = empty string):
 //
-//	req <srvT> <cih> <strict> <hT> <omit> <remote> <tls> <host> <hdrs> <tbl>
+//	req <srvT> <cih> <strict> <hT> <omit> <remote> <tls> <host> <hdrs> <tbl> <fails> <hops>
 //
 //	srvT   nil | . | cidr,cidr,…      server trusted_proxies (nil = not configured, . = [])
 //	cih    nil | . | hex,hex,…        client_ip_headers (nil = not configured → default)
@@ -27,7 +27,14 @@
 //	                                  a header value that netip.ParseAddr accepts, its
 //	                                  String(), and Prefix.Contains for each srvT / hT range
 //
+//	fails  0|1|2                      round trips that fail before one succeeds: the transport reports
+//	                                  the upstream down, reverse_proxy (load_balancing.retries 3) retries
+//	hops   0|1|2                      reverse_proxy request header ops (header_up): none | set an unrelated
+//	                                  field from an upstream placeholder | delete X-Forwarded-Host
+//
 // Answer: "ip=<hex> tp=<0|1> xff=<H> xfp=<H> xfh=<H>"  with H = absent | nil | hex,hex,…
+//
+//	followed by " | xff=… xfp=… xfh=…" for every further attempt (fails+1 triples in all)
 //
 //	or "ip=<hex> tp=<0|1> err" when reverse_proxy refused the request (500, nothing sent).
 package c10
@@ -64,7 +71,9 @@ type obs struct {
 	clientIP  string
 	trusted   bool
 	sent      bool
-	out       http.Header
+	out       http.Header   // the attempt that succeeded (the last one)
+	attempts  []http.Header // every attempt handed to the transport, in order
+	failLeft  int           // round trips that still have to fail (upstream "down")
 	outHost   string
 	matchedIP bool
 }
@@ -115,6 +124,11 @@ func (Capture) CaddyModule() caddy.ModuleInfo {
 
 func (Capture) RoundTrip(req *http.Request) (*http.Response, error) {
 	if o, ok := req.Context().Value(obsKey{}).(*obs); ok {
+		o.attempts = append(o.attempts, req.Header.Clone())
+		if o.failLeft > 0 {
+			o.failLeft--
+			return nil, errUpstreamDown // reverse_proxy retries (GET, load_balancing.retries)
+		}
 		o.sent = true
 		o.out = req.Header.Clone()
 		o.outHost = req.Host
@@ -124,6 +138,8 @@ func (Capture) RoundTrip(req *http.Request) (*http.Response, error) {
 		Header: http.Header{}, Body: http.NoBody, Request: req,
 	}, nil
 }
+
+var errUpstreamDown = fmt.Errorf("verif: upstream down")
 
 var registerOnce sync.Once
 
@@ -151,6 +167,8 @@ type kase struct {
 	host    string
 	hdrs    []hdrField
 	tbl     string // as given on the line ("" when the line is being built)
+	fails   int    // 0..2 round trips fail before one succeeds (proxy retry loop)
+	hops    int    // request header ops of reverse_proxy: 0 none, 1 set an unrelated field, 2 delete X-Forwarded-Host
 }
 
 func listField(xs []string, isNil bool, hexed bool) string {
@@ -230,14 +248,14 @@ func (k *kase) line() string {
 	if k.tls {
 		tl = 1
 	}
-	return fmt.Sprintf("req %s %s %d %s %s %s %d %s %s %s",
+	return fmt.Sprintf("req %s %s %d %s %s %s %d %s %s %s %d %d",
 		listField(k.srvT, k.srvTNil, false), listField(k.cih, k.cihNil, true), k.strict,
-		listField(k.hT, false, false), omit, core.Hex(k.remote), tl, core.Hex(k.host), hd, k.table())
+		listField(k.hT, false, false), omit, core.Hex(k.remote), tl, core.Hex(k.host), hd, k.table(), k.fails, k.hops)
 }
 
 func parseLine(line string) (*kase, bool) {
 	f := strings.Fields(line)
-	if len(f) != 11 || f[0] != "req" {
+	if len(f) != 13 || f[0] != "req" {
 		return nil, false
 	}
 	k := &kase{}
@@ -298,6 +316,14 @@ func parseLine(line string) (*kase, bool) {
 		}
 	}
 	k.tbl = f[10]
+	for i, dst := range []*int{&k.fails, &k.hops} {
+		switch f[11+i] {
+		case "0", "1", "2":
+			*dst = int(f[11+i][0] - '0')
+		default:
+			return nil, false
+		}
+	}
 	return k, true
 }
 
@@ -477,8 +503,8 @@ func (k *kase) matcherRanges() []string {
 }
 
 func (k *kase) cfgKey() string {
-	return fmt.Sprintf("%s|%s|%d|%s|%v", listField(k.srvT, k.srvTNil, false), listField(k.cih, k.cihNil, true), k.strict,
-		listField(k.hT, false, false), k.omit)
+	return fmt.Sprintf("%s|%s|%d|%s|%v|%d", listField(k.srvT, k.srvTNil, false), listField(k.cih, k.cihNil, true), k.strict,
+		listField(k.hT, false, false), k.omit, k.hops)
 }
 
 func (p *prop) server(k *kase) (*caddyhttp.Server, error) {
@@ -516,6 +542,15 @@ func (p *prop) server(k *kase) (*caddyhttp.Server, error) {
 		"handler":   "reverse_proxy",
 		"transport": map[string]any{"protocol": "verif_c10"},
 		"upstreams": []any{map[string]any{"dial": "127.0.0.1:9"}},
+		// a failed round trip of a GET is retried at once, up to 3 times
+		"load_balancing": map[string]any{"retries": 3},
+	}
+	switch k.hops {
+	case 1:
+		rp["headers"] = map[string]any{"request": map[string]any{"set": map[string]any{
+			"X-Verif-Up": []string{"{http.reverse_proxy.upstream.hostport}"}}}}
+	case 2:
+		rp["headers"] = map[string]any{"request": map[string]any{"delete": []string{"X-Forwarded-Host"}}}
 	}
 	if len(k.hT) > 0 {
 		rp["trusted_proxies"] = k.hT
@@ -589,7 +624,7 @@ func (p *prop) serve(k *kase, hdrs []hdrField) (string, *obs, error) {
 	for _, f := range hdrs {
 		h.Add(f.name, f.value)
 	}
-	o := &obs{}
+	o := &obs{failLeft: k.fails}
 	r := &http.Request{
 		Method: "GET", URL: &url.URL{Path: "/"}, RequestURI: "/",
 		Proto: "HTTP/1.1", ProtoMajor: 1, ProtoMinor: 1,
@@ -611,7 +646,12 @@ func (p *prop) serve(k *kase, hdrs []hdrField) (string, *obs, error) {
 		}
 		return head + " status=" + strconv.Itoa(w.Code), o, nil
 	}
-	return head + " xff=" + hval(o.out, fwdNames[0]) + " xfp=" + hval(o.out, fwdNames[1]) + " xfh=" + hval(o.out, fwdNames[2]), o, nil
+	// one triple per attempt handed to the transport (fails+1 of them), in order
+	var parts []string
+	for _, a := range o.attempts {
+		parts = append(parts, "xff="+hval(a, fwdNames[0])+" xfp="+hval(a, fwdNames[1])+" xfh="+hval(a, fwdNames[2]))
+	}
+	return head + " " + strings.Join(parts, " | "), o, nil
 }
 
 func (p *prop) Run(line string) core.Outcome {
